@@ -3,87 +3,116 @@
 (* Generator specification for C05: the option vectors under which every   *)
 (* program is analysed.                                                    *)
 (*                                                                         *)
-(*   od  summarize-on-demand      0 / 1                                    *)
-(*   pf  pkg-filter               0 none, 1 matches every package of the   *)
-(*                                program, 2 matches the main package      *)
-(*                                only, 3 matches no package               *)
-(*   rp rs rc rn  report-paths / -summaries / -coverage / -no-callee-sites *)
-(*   ll  log-level                1 .. 5                                   *)
-(*   ma  max-alarms               0 (unlimited) .. 3                       *)
+(*   1 od  summarize-on-demand   0 / 1                                     *)
+(*   2 pf  pkg-filter            0 none, 1 matches every package of the    *)
+(*                               program, 2 matches the main package only, *)
+(*                               3 matches no package                      *)
+(*   3 rp  4 rs  5 rc  6 rn      report-paths / -summaries / -coverage /   *)
+(*                               -no-callee-sites                          *)
+(*   7 ll  log-level             1 .. 5   (digit 0 .. 4)                   *)
+(*   8 ma  max-alarms            0 (unlimited) .. 3                        *)
 (*                                                                         *)
-(* The full product has 2560 vectors.  The specification is the greedy     *)
-(* construction of a covering set: starting from the default vector, Next  *)
-(* adds a vector that covers the largest number of still uncovered value   *)
-(* combinations, where the combinations to cover are all combinations of   *)
-(* every T options (T = 2: pairwise) and, in full, of the option sets in   *)
-(* Must (e.g. {od, pf, ma}: every on-demand x filter class is run with     *)
-(* every alarm limit).  Ties are broken by a Seed-dependent permutation of *)
-(* the vectors, so that different VERIF_SEED values yield different        *)
-(* covering sets; Extra further vectors are added in permutation order.    *)
-(* The behaviour is deterministic (one successor per state); its final     *)
-(* state is the test plan, written by the POSTCONDITION.                   *)
+(* The full product has 2560 vectors; a vector is its mixed-radix code     *)
+(* 0 .. 2559.  The specification is the greedy construction of a covering  *)
+(* set (AETG style): starting from the default vector, Next adds the       *)
+(* vector -- among a Seed- and step-dependent window of candidates -- that *)
+(* covers the largest number of still uncovered value combinations; the    *)
+(* combinations to cover are all combinations of every T options (T = 2:   *)
+(* pairwise) and, in full, of the option sets in Must (e.g. {1, 2, 8}:     *)
+(* every on-demand x filter class is run with every alarm limit).  When no *)
+(* candidate covers anything new, the default vector is overridden with an *)
+(* uncovered combination, so every step makes progress.  The behaviour is  *)
+(* deterministic; its final state is the test plan (POSTCONDITION).        *)
 (***************************************************************************)
 EXTENDS Naturals, Sequences, FiniteSets, TLC, Json, SequencesExt
 
 CONSTANTS T,      \* strength of the covering set (2 or 3)
-          Seed,   \* tie break
-          Extra,  \* additional vectors
-          Must    \* option sets covered in full, e.g. {{"od", "pf", "ma"}}
+          Seed,   \* selects the permutation of the vectors
+          Extra,  \* additional vectors (first in the permutation)
+          Must    \* option sets (indices) covered in full, e.g. {{1, 2, 8}}
 
-Opts == {"od", "pf", "rp", "rs", "rc", "rn", "ll", "ma"}
-Dom  == [od |-> 0 .. 1, pf |-> 0 .. 3, rp |-> 0 .. 1, rs |-> 0 .. 1, rc |-> 0 .. 1, rn |-> 0 .. 1,
-         ll |-> 1 .. 5, ma |-> 0 .. 3]
+N   == 8
+D   == <<2, 4, 2, 2, 2, 2, 5, 4>>                  \* domain sizes
+W   == <<1280, 320, 160, 80, 40, 20, 4, 1>>        \* mixed-radix weights
+NV  == 2560
+Digit(c, i) == (c \div W[i]) % D[i]
 
-Vectors == {[od |-> a, pf |-> b, rp |-> c, rs |-> d, rc |-> e, rn |-> f, ll |-> g, ma |-> h] :
-              a \in Dom.od, b \in Dom.pf, c \in Dom.rp, d \in Dom.rs, e \in Dom.rc, f \in Dom.rn,
-              g \in Dom.ll, h \in Dom.ma}
+\* default: eager, no filter, no reports, log-level 3 (digit 2), unlimited alarms
+DefaultCode == 2 * W[7]
 
-Default == [od |-> 0, pf |-> 0, rp |-> 0, rs |-> 0, rc |-> 0, rn |-> 0, ll |-> 3, ma |-> 0]
+GSeq == SetToSeq({S \in SUBSET (1 .. N) : Cardinality(S) = T} \cup Must)
+NG   == Len(GSeq)
 
-\* the option sets whose value combinations must all occur
-Groups == {S \in SUBSET Opts : Cardinality(S) = T} \cup Must
+RECURSIVE Sub(_, _, _)
+\* the code c with every digit outside S set to 0
+Sub(c, S, i) == IF i > N THEN 0 ELSE (IF i \in S THEN Digit(c, i) * W[i] ELSE 0) + Sub(c, S, i + 1)
 
-Proj(v, S)     == [o \in S |-> v[o]]
-Tuples(v)      == {<<S, Proj(v, S)>> : S \in Groups}
-AllTuples      == UNION {Tuples(v) : v \in Vectors}
+TupleId(c, g) == g * NV + Sub(c, GSeq[g], 1)
+Tuples(c)     == {TupleId(c, g) : g \in 1 .. NG}
+
+RECURSIVE Combos(_, _)
+\* all sub-codes over the option set S (as a sequence of indices)
+Combos(idx, k) == IF k > Len(idx) THEN {0}
+                  ELSE {d * W[idx[k]] + r : d \in 0 .. (D[idx[k]] - 1), r \in Combos(idx, k + 1)}
+AllTuples == UNION {{g * NV + s : s \in Combos(SetToSeq(GSeq[g]), 1)} : g \in 1 .. NG}
 
 \* a Seed-dependent permutation of the vectors (multiplication by a unit modulo the prime 2579 > 2560)
-Code(v) == ((((((v.od * 4 + v.pf) * 2 + v.rp) * 2 + v.rs) * 2 + v.rc) * 2 + v.rn) * 5 + (v.ll - 1)) * 4 + v.ma
 Mult    == LET m == ((2 * Seed + 1) * 7919) % 2579 IN IF m = 0 THEN 1 ELSE m
-Rank(v) == ((Code(v) + 1) * Mult) % 2579
+Rank(c) == ((c + 1) * Mult) % 2579
 
-VARIABLES chosen, uncovered
-vars == <<chosen, uncovered>>
+VARIABLES chosen, uncovered, step
+vars == <<chosen, uncovered, step>>
 
-Init == /\ chosen = {Default}
-        /\ uncovered = AllTuples \ Tuples(Default)
+Init == /\ chosen = {DefaultCode}
+        /\ uncovered = AllTuples \ Tuples(DefaultCode)
+        /\ step = 0
+
+\* about 200 candidates per step
+Window(s) == {c \in 0 .. (NV - 1) : (Rank(c) + 97 * s) % 13 = 0}
+Gain(c, unc) == Cardinality(Tuples(c) \cap unc)
+
+RECURSIVE BestOf(_, _, _, _)
+BestOf(cs, i, acc, unc) == IF i > Len(cs) THEN acc
+                           ELSE LET k == Gain(cs[i], unc) * 4096 + (2579 - Rank(cs[i]))
+                                IN BestOf(cs, i + 1, IF k > acc THEN k ELSE acc, unc)
+
+\* the default vector overridden with the uncovered combination t
+FromTuple(t) == LET g == t \div NV
+                    s == t % NV
+                IN DefaultCode - Sub(DefaultCode, GSeq[g], 1) + s
 
 Next == /\ uncovered # {}
-        /\ LET gain == [w \in Vectors |-> Cardinality(Tuples(w) \cap uncovered)]
-               best == CHOOSE n \in {gain[w] : w \in Vectors} : \A w \in Vectors : gain[w] <= n
-               cand == {w \in Vectors : gain[w] = best}
-               v    == CHOOSE w \in cand : \A u \in cand : Rank(w) <= Rank(u)
+        /\ LET cs   == SetToSeq(Window(step))
+               best == BestOf(cs, 1, 0, uncovered)
+               v    == IF best \div 4096 > 0
+                       THEN CHOOSE c \in Window(step) : Rank(c) = 2579 - (best % 4096)
+                       ELSE FromTuple(CHOOSE t \in uncovered : \A u \in uncovered : t <= u)
            IN /\ chosen' = chosen \cup {v}
               /\ uncovered' = uncovered \ Tuples(v)
+        /\ step' = step + 1
 
 Spec == Init /\ [][Next]_vars
 
 \* every step covers something new, so the construction terminates with everything covered
-Progress == [][Cardinality(uncovered') < Cardinality(uncovered)]_vars
-Covered(C) == \A t \in AllTuples : \E v \in C : t \in Tuples(v)
+Progress   == [][Cardinality(uncovered') < Cardinality(uncovered)]_vars
+Covered(C) == AllTuples \subseteq UNION {Tuples(c) : c \in C}
+TypeOK     == chosen \subseteq 0 .. (NV - 1) /\ uncovered \subseteq AllTuples
 
-RECURSIVE Lowest(_, _)
-Lowest(S, n) == IF n = 0 \/ S = {} THEN {}
-                ELSE LET v == CHOOSE w \in S : \A u \in S : Rank(w) <= Rank(u)
-                     IN {v} \cup Lowest(S \ {v}, n - 1)
+\* the n vectors of S that come first in the permutation
+Lowest(S, n) == LET sorted == SortSeq(SetToSeq({Rank(c) : c \in S}), <)
+                    first  == {sorted[j] : j \in 1 .. (IF n < Len(sorted) THEN n ELSE Len(sorted))}
+                IN {c \in S : Rank(c) \in first}
+
+Vec(c) == [od |-> Digit(c, 1), pf |-> Digit(c, 2), rp |-> Digit(c, 3), rs |-> Digit(c, 4), rc |-> Digit(c, 5),
+           rn |-> Digit(c, 6), ll |-> Digit(c, 7) + 1, ma |-> Digit(c, 8), code |-> c]
 
 ASSUME TLCSet(1, {})
 Collect == IF uncovered = {} THEN TLCSet(1, chosen) ELSE TRUE
 
 Post == LET base == TLCGet(1)
-            plan == base \cup Lowest(Vectors \ base, Extra)
+            plan == base \cup Lowest((0 .. (NV - 1)) \ base, Extra)
             q    == SetToSeq(plan)
         IN /\ Assert(base # {} /\ Covered(base), "the covering construction did not finish")
-           /\ ndJsonSerialize("vectors.ndjson", q)
+           /\ ndJsonSerialize("vectors.ndjson", [j \in 1 .. Len(q) |-> Vec(q[j])])
            /\ PrintT(<<"OPTIONSPACE", Cardinality(base), Len(q), Cardinality(AllTuples)>>)
 =============================================================================
